@@ -1,0 +1,108 @@
+//go:build verif
+
+// Contracts for the verification machinery in /verif (comment-only; no declarations).
+
+package handshake
+
+// ---------------------------------------------------------------------------
+// C19: server side of the HTTP Peer-ID auth handshake (guard contracts over abstract crypto:
+// hmac.Equal, PubKey.Verify, IDFromPublicKey are uninterpreted; what is proved is that the server's own
+// checks sit on every successful path)
+
+//@ func (o *opaqueState) Unmarshal
+//@ prop C19
+//@ ensures result == nil ==> len(d) >= ret(Size, 0, 0) && called(Equal, 0) && ret(Equal, 0, 0) &&
+//@         arg(Equal, 0, 0) == d[:ret(Size, 1, 0)] && arg(Equal, 0, 1) == ret(Sum, 0, 0) &&
+//@         called(Write, 0) && arg(Write, 0, 1) == d[ret(Size, 2, 0):] && ret(Write, 0, 1) == nil &&
+//@         arg(Write, 0, 0) == hmacImpl && arg(Sum, 0, 0) == hmacImpl && called(Reset, 0)
+//@ ensures result == nil ==> called(Unmarshal, 0) && ret(Unmarshal, 0, 0) == nil && arg(Unmarshal, 0, 0) == d[ret(Size, 2, 0):]
+//@ modifies *o
+
+//@ func (h *PeerIDAuthHandshakeServer) Run
+//@ prop C19
+//@ callsite verifySig#0 requires called(Unmarshal, 0) && ret(Unmarshal, 0, 0) == nil && arg(Unmarshal, 0, 1) == h.Hmac
+//@ callsite verifySig#0 requires !h.opaque.IsToken && h.Hostname == h.opaque.Hostname
+//@ callsite verifySig#0 requires !(ret(nowFn, 0, 0) > h.opaque.CreatedTime + challengeTTL)
+//@ callsite verifySig#0 requires arg1 == ret(UnmarshalPublicKey, 0, 0) && ret(UnmarshalPublicKey, 0, 1) == nil
+//@ callsite verifySig#0 requires h.opaque.ClientPublicKey != nil ==> arg(UnmarshalPublicKey, 0, 0) == h.opaque.ClientPublicKey
+//@ ensures result == nil && h.state == peerIDAuthServerStateVerifyChallenge ==>
+//@         called(verifySig, 0) && ret(verifySig, 0, 0) == nil && called(IDFromPublicKey, 0) && ret(IDFromPublicKey, 0, 1) == nil &&
+//@         arg(IDFromPublicKey, 0, 0) == arg(verifySig, 0, 1) &&
+//@         h.opaque.IsToken && h.opaque.PeerID == ret(IDFromPublicKey, 0, 0) && h.opaque.Hostname == h.Hostname &&
+//@         h.opaque.CreatedTime == ret(nowFn, 1, 0)
+//@ ensures result == nil && h.state == peerIDAuthServerStateVerifyBearer ==>
+//@         called(Unmarshal, 1) && ret(Unmarshal, 1, 0) == nil && arg(Unmarshal, 1, 1) == h.Hmac &&
+//@         h.opaque.IsToken && !(ret(nowFn, 2, 0) > h.opaque.CreatedTime + h.TokenTTL)
+//@ ensures result == nil && (h.state == peerIDAuthServerStateChallengeClient || h.state == peerIDAuthServerStateSignChallenge) ==>
+//@         h.opaque.PeerID == old(h.opaque.PeerID) && !h.opaque.IsToken == !old(h.opaque.IsToken)
+//@ ensures h.ran && h.state == old(h.state)
+//@ noframe
+
+//@ func (h *PeerIDAuthHandshakeServer) PeerID
+//@ prop C19
+//@ ensures result1 == nil ==> h.ran && (h.state == peerIDAuthServerStateVerifyChallenge || h.state == peerIDAuthServerStateVerifyBearer) &&
+//@         result0 == h.opaque.PeerID && result0 != ""
+//@ modifies nothing
+
+//@ func (h *PeerIDAuthHandshakeServer) verifySig
+//@ prop C19
+//@ callsite verifySig#0 requires len(arg2) == 3 && arg2[0].k == "challenge-client" && strsrc(arg2[0].v) == h.opaque.ChallengeClient &&
+//@         arg2[1].k == "server-public-key" && arg2[1].v == ret(MarshalPublicKey, 0, 0) && arg(MarshalPublicKey, 0, 0) == ret(GetPublic, 0, 0) &&
+//@         arg(GetPublic, 0, 0) == h.PrivKey && arg2[2].k == "hostname" && strsrc(arg2[2].v) == h.Hostname
+//@ ensures result == nil ==> called(verifySig, 0) && ret(verifySig, 0, 0) == nil && arg(verifySig, 0, 0) == clientPubKey &&
+//@         arg(verifySig, 0, 1) == PeerIDAuthScheme && arg(verifySig, 0, 3) == ret(AppendDecode, 0, 0) &&
+//@         arg(AppendDecode, 0, 2) == h.p.sigB64 && ret(AppendDecode, 0, 1) == nil
+//@ ensures result == nil ==> called(MarshalPublicKey, 0) && ret(MarshalPublicKey, 0, 1) == nil
+//@ modifies elems(h.buf[:])
+
+//@ func verifySig
+//@ prop C19
+//@ ensures result == nil ==> publicKey != nil && called(Verify, 0) && ret(Verify, 0, 0) && ret(Verify, 0, 1) == nil &&
+//@         arg(Verify, 0, 0) == publicKey && arg(Verify, 0, 1) == ret(genDataToSign, 0, 0) && arg(Verify, 0, 2) == sig &&
+//@         arg(genDataToSign, 0, 1) == prefix && arg(genDataToSign, 0, 2) == signedParts && ret(genDataToSign, 0, 1) == nil
+//@ noinline genDataToSign
+//@ modifies elems(signedParts)
+
+// ---- client side: the server's identity is reported only after its signature over the client's own
+// challenge, the client's public key and the hostname verified under the advertised key
+
+//@ func (h *PeerIDAuthHandshakeClient) verifySig
+//@ prop C19
+//@ callsite verifySig#0 requires arg0 == h.serverPubKey && arg1 == PeerIDAuthScheme && len(arg2) == 3 &&
+//@         arg2[0].k == "challenge-server" && arg2[0].v == h.challengeServer &&
+//@         arg2[1].k == "client-public-key" && arg2[1].v == clientPubKeyBytes &&
+//@         arg2[2].k == "hostname" && strsrc(arg2[2].v) == h.Hostname
+//@ ensures result == nil ==> called(verifySig, 0) && ret(verifySig, 0, 0) == nil && len(h.p.sigB64) != 0
+//@ modifies nothing
+
+//@ func (h *PeerIDAuthHandshakeClient) Run
+//@ prop C19
+//@ callsite verifySig#0 requires arg1 == ret(MarshalPublicKey, 0, 0) && arg(MarshalPublicKey, 0, 0) == ret(GetPublic, 0, 0) && arg(GetPublic, 0, 0) == h.PrivKey
+//@ callsite verifySig#1 requires arg1 == ret(MarshalPublicKey, 0, 0) && arg(MarshalPublicKey, 0, 0) == ret(GetPublic, 0, 0) && arg(GetPublic, 0, 0) == h.PrivKey
+//@ ensures h.state == peerIDAuthClientStateWaitingForBearer && old(h.state) != peerIDAuthClientStateWaitingForBearer ==>
+//@         result == nil && old(h.state) == peerIDAuthClientStateVerifyAndSignChallenge && called(verifySig, 0) && ret(verifySig, 0, 0) == nil
+//@ ensures h.state == peerIDAuthClientStateDone && old(h.state) != peerIDAuthClientStateDone ==>
+//@         result == nil && (old(h.state) == peerIDAuthClientStateWaitingForBearer ||
+//@           (old(h.state) == peerIDAuthClientStateVerifyChallenge && called(verifySig, 1) && ret(verifySig, 1, 0) == nil))
+//@ ensures h.state == peerIDAuthClientStateWaitingForBearer && old(h.state) != peerIDAuthClientStateWaitingForBearer ==>
+//@         result == nil && old(h.state) == peerIDAuthClientStateVerifyAndSignChallenge
+//@ ensures h.state == peerIDAuthClientStateDone && old(h.state) != peerIDAuthClientStateDone ==>
+//@         result == nil && (old(h.state) == peerIDAuthClientStateWaitingForBearer || old(h.state) == peerIDAuthClientStateVerifyChallenge)
+//@ ensures h.serverPubKey == old(h.serverPubKey) && h.serverPeerID == old(h.serverPeerID) && h.Hostname == old(h.Hostname)
+//@ ensures result != nil && old(h.state) != peerIDAuthClientStateVerifyAndSignChallenge ==> h.state == old(h.state)
+//@ noframe
+
+//@ func (h *PeerIDAuthHandshakeClient) ParseHeader
+//@ prop C19
+//@ ensures h.state == old(h.state)
+//@ ensures old(h.serverPubKey) != nil ==> h.serverPubKey == old(h.serverPubKey) && h.serverPeerID == old(h.serverPeerID)
+//@ ensures result == nil && old(h.serverPubKey) == nil && h.serverPubKey != nil ==>
+//@         called(IDFromPublicKey, 0) && ret(IDFromPublicKey, 0, 1) == nil && h.serverPeerID == ret(IDFromPublicKey, 0, 0) &&
+//@         arg(IDFromPublicKey, 0, 0) == h.serverPubKey && h.serverPubKey == ret(UnmarshalPublicKey, 0, 0)
+//@ noframe
+
+//@ func (h *PeerIDAuthHandshakeClient) PeerID
+//@ prop C19
+//@ ensures result1 == nil ==> (h.state == peerIDAuthClientStateDone || h.state == peerIDAuthClientStateWaitingForBearer) &&
+//@         result0 == h.serverPeerID && result0 != ""
+//@ modifies nothing
